@@ -329,6 +329,7 @@ impl Join {
                     columns,
                     string_pool.long_string_refs(),
                 );
+                validate_join_condition(&table, &condition)?;
                 let mut rows = Vec::<Vec<ValueRef>>::new();
                 for value_refs1 in rows1.iter() {
                     for value_refs2 in rows2.iter() {
@@ -369,6 +370,7 @@ impl Join {
                     columns,
                     string_pool.long_string_refs(),
                 );
+                validate_join_condition(&table, &condition)?;
                 let mut rows = Vec::<Vec<ValueRef>>::new();
                 for value_refs1 in rows1.iter() {
                     let mut found_any = false;
@@ -406,6 +408,20 @@ impl Join {
             }
         }
     }
+}
+
+/// Returns an error if the join condition refers to a column that the joined
+/// table doesn't have.
+fn validate_join_condition(table: &Table, condition: &Expr) -> io::Result<()> {
+    for column_name in condition.column_names().into_iter() {
+        if !table.has_column(column_name) {
+            invalid_input!(
+                "Joined table has no column named {:?}",
+                column_name
+            );
+        }
+    }
+    Ok(())
 }
 
 impl fmt::Display for Join {
